@@ -192,6 +192,15 @@ def gather():
     C["handler_nodes_take_v4"] = int(takes[0])
     C["handler_nodes_take_v6"] = int(takes[1])
 
+    d, _ = eval_consts(src)
+    C["handler_max_datagram_len"] = need(d, "MAX_DATAGRAM_LEN", "handler.rs")
+    C["handler_reply_overhead_len"] = need(d, "REPLY_OVERHEAD_LEN", "handler.rs")
+    m = re.search(r"fn\s+max_values_in_reply.*?budget\s*/\s*if\s+ipv6\s*\{\s*(\d+)\s*\}\s*else\s*\{\s*(\d+)\s*\}", src, re.S)
+    if not m:
+        raise ConstError("max_values_in_reply per-value sizes not found in handler.rs")
+    C["handler_value_len_v6"] = int(m.group(1))
+    C["handler_value_len_v4"] = int(m.group(2))
+
     # compact.rs
     d, _ = eval_consts(read("src/compact.rs"), env_ih)
     C["compact_socket_addr_v4_len"] = need(d, "SOCKET_ADDR_V4_LEN", "compact.rs")
